@@ -169,7 +169,7 @@ func HarnessC08_Structure() {
 	s := e.script()
 	i := vfPick("index", 0, 7)
 	edit := vfPick("edit", 0, 2)
-	other := []Package{&ReturnStatusPackage{}, &DonePackage{Status: TDS_DONE_FINAL}, &MsgPackage{}, &LoginAckPackage{Status: TDS_LOG_FAIL}}[vfPick("other", 0, 3)]
+	other := []Package{&ReturnStatusPackage{}, &DonePackage{Status: TDS_DONE_FINAL}, &LoginAckPackage{Status: TDS_LOG_FAIL}}[vfPick("other", 0, 2)]
 	var script []Package
 	switch edit {
 	case 0: // delete
